@@ -10,6 +10,7 @@ import (
 	"os"
 	"path/filepath"
 	"regexp"
+	"runtime"
 	"sort"
 	"strconv"
 	"strings"
@@ -66,6 +67,9 @@ type cleanScn struct {
 	// Cpu: the value of -test.cpu of the process. Only lists with ONE non-empty element are generated ("1,", ",2", "4,,"):
 	// package testing skips empty elements, every test still runs Count times
 	Cpu string `json:"test_cpu,omitempty"`
+	// ReadOnly: while Clean runs, the snapshot tree is read-only for the process (directories 0555, files 0444, the calling
+	// thread's file-system uid is an unprivileged one): a read-only checkout / source mount. Clean can still READ everything.
+	ReadOnly bool `json:"read_only_tree_during_clean,omitempty"`
 	// FdHeadroom > 0: while Clean runs, the process may open only that many descriptors beyond those it holds already
 	// (RLIMIT_NOFILE lowered: container / ulimit environments). The scenario then addresses more snapshot files than that
 	// (test "TestZManyFiles", one call per file): Clean needs one descriptor at a time.
@@ -193,6 +197,15 @@ func genCleanScn(t *rapid.T, col *collector, so scnOpts) cleanScn {
 			s.Extra = append(s.Extra, it)
 		}
 	}
+	if rapid.IntRange(0, 7).Draw(t, "readonly") == 0 {
+		// nothing that Clean has to WRITE is part of a read-only scenario (no sorting; in deleting modes no stale entry in a
+		// used file): reporting must work, and files that cannot be unlinked are still listed
+		s.ReadOnly = true
+		s.Sort = false
+		if !s.Mode.CI && (s.Mode.Update == "true" || s.Mode.Update == "clean") {
+			s.Stale = nil
+		}
+	}
 	if rapid.IntRange(0, 5).Draw(t, "cpu") == 0 {
 		s.Cpu = rapid.SampledFrom([]string{"1", "1,", "4,", ",2", "1,,", " 2 ,"}).Draw(t, "cpulist")
 	}
@@ -237,6 +250,10 @@ func genCleanScn(t *rapid.T, col *collector, so scnOpts) cleanScn {
 		// sibling directories that a glob of the main directory name would match as well: never addressed, never to be touched
 		s.Extra = append(s.Extra, extraItem{Path: "snaps-v1", IsDir: true}, extraItem{Path: "snaps-v1/sibling.snap", Data: "\n[TestOld - 1]\ns\n---\n"},
 			extraItem{Path: "snaps", IsDir: true}, extraItem{Path: "snaps/glob_sibling.snap", Data: "\n[TestOld - 1]\ns\n---\n"})
+	}
+	if s.ReadOnly && !s.Mode.CI && (s.Mode.Update == "true" || s.Mode.Update == "clean") {
+		s.Stale = nil // (the many-files block may have added stale entries)
+		s.Dangling = -1
 	}
 	if so.runFilter {
 		tops := map[string]bool{}
@@ -448,6 +465,11 @@ func (s cleanScn) run() (*scnRun, func(), error) {
 	if s.FdHeadroom > 0 {
 		restore = limitDescriptors(s.FdHeadroom)
 	}
+	if s.ReadOnly {
+		undo := makeReadOnly(root)
+		prev := restore
+		restore = func() { undo(); prev() }
+	}
 	if s.Cpu != "" {
 		fcpu := flag.Lookup("test.cpu")
 		oldCPU := fcpu.Value.String()
@@ -463,6 +485,46 @@ func (s cleanScn) run() (*scnRun, func(), error) {
 	}
 	r.sum = sum
 	return r, cleanup, nil
+}
+
+// makeReadOnly makes the tree below root read-only for the calling goroutine: directories 0555, files 0444, ancestors of root
+// searchable, and the file-system uid/gid of the (locked) OS thread set to an unprivileged user (root ignores permission
+// bits). The returned function undoes all of it. Linux only; on failure nothing is changed.
+func makeReadOnly(root string) func() {
+	type mode struct {
+		p string
+		m os.FileMode
+	}
+	var saved []mode
+	// the ancestors (scratch directories shared with the other shard processes) become searchable and stay so
+	for p := filepath.Dir(root); p != "/" && p != "/tmp" && p != "."; p = filepath.Dir(p) {
+		if fi, err := os.Stat(p); err == nil && fi.Mode().Perm()&0o055 != 0o055 {
+			os.Chmod(p, fi.Mode().Perm()|0o055)
+		}
+	}
+	filepath.Walk(root, func(p string, info os.FileInfo, err error) error {
+		if err != nil || info.Mode()&os.ModeSymlink != 0 {
+			return nil
+		}
+		saved = append(saved, mode{p, info.Mode().Perm()})
+		if info.IsDir() {
+			os.Chmod(p, 0o555)
+		} else {
+			os.Chmod(p, 0o444)
+		}
+		return nil
+	})
+	runtime.LockOSThread()
+	syscall.Setfsgid(65534)
+	syscall.Setfsuid(65534)
+	return func() {
+		syscall.Setfsuid(0)
+		syscall.Setfsgid(0)
+		runtime.UnlockOSThread()
+		for i := len(saved) - 1; i >= 0; i-- {
+			os.Chmod(saved[i].p, saved[i].m)
+		}
+	}
 }
 
 // limitDescriptors lowers the soft RLIMIT_NOFILE to the descriptors currently open plus headroom; the returned function
@@ -682,6 +744,9 @@ func classifyCleanScn(s cleanScn) ([]string, bool) {
 	if s.FdHeadroom > 0 {
 		cls = append(cls, "more_addressed_files_than_free_descriptors")
 	}
+	if s.ReadOnly {
+		cls = append(cls, "read_only_tree_during_clean")
+	}
 	if strings.Contains(s.Cpu, ",") {
 		cls = append(cls, "test_cpu_list_with_empty_element")
 	}
@@ -817,6 +882,9 @@ func checkC09(s cleanScn) error {
 	}
 
 	// effects on the directory
+	if s.ReadOnly {
+		deletes = false // nothing can be removed from a read-only tree: the items are listed all the same
+	}
 	for p, pre := range r.preClean {
 		post, exists := r.afterClean[p]
 		_, isMulti := m.multiLive[p]
@@ -969,6 +1037,28 @@ func checkC20Scn(s cleanScn) error {
 	}
 	if err := checkSummaryTotals(r.sum, tally, skips); err != nil {
 		return fmt.Errorf("mode %+v count %d: %v", s.Mode, s.Count, err)
+	}
+	// the files Clean judges obsolete (unaddressed `.snap` files directly inside a visited directory) are listed, all of them
+	// and nothing else - whether or not they could be removed
+	m := r.model
+	listed := map[string]bool{}
+	for _, f := range r.sum.Files {
+		listed[relTo(r.root, f)] = true
+	}
+	for p, st := range r.preClean {
+		if st.IsDir || !m.visited[filepath.Dir(p)] || !strings.Contains(filepath.Base(p), ".snap") {
+			continue
+		}
+		_, multi := m.multiLive[p]
+		if multi || m.soloLive[p] {
+			if listed[p] {
+				return fmt.Errorf("file %q was addressed in this process but the summary lists it as obsolete", p)
+			}
+			continue
+		}
+		if !listed[p] {
+			return fmt.Errorf("unaddressed file %q in a visited snapshot directory is missing from the summary's obsolete list (mode %+v, read-only tree %v); summary %q", p, s.Mode, s.ReadOnly, clip(r.sum.Raw))
+		}
 	}
 	return nil
 }
